@@ -339,6 +339,17 @@ def generator_checks(tier, seed):
                None if r["exception"] is None and len(dr) >= 3 * 5 and len(set(dr)) == len(dr) else
                f"real HMC ({bg}, array initial states, 3 chains): {len(dr) - len(set(dr))} of {len(dr)} momentum draws repeat an earlier "
                f"draw of the run -- a random stream was replayed ({r['exception']})")
+    # ... also the momenta redrawn by the metric adapters when a slow window ends: the generator handed to every
+    # momentum draw of the run (transitions and adapter finalisation) is in a state it has never been in before
+    for bg in ("PCG64", "Philox") + (("MT19937", "SFC64") if tier == "thorough" else ()):
+        r = E.hmc_run(adapters=("dual", "var"), stager="windowed-small", n_warm=14, n_main=3, nchain=2, n_process=1, bitgen=bg,
+                      explicit_mom=True, record_draws=True)
+        st = r.get("rng_states", [])
+        yield (f"hmc:generator-state-never-repeats:metric-adaptation:{bg}",
+               None if r["exception"] is None and len(st) >= 2 * 17 and len(set(st)) == len(st) else
+               f"real HMC ({bg}, step-size and metric adaptation in windows, 2 chains): {len(st) - len(set(st))} of {len(st)} momentum draws "
+               f"(transitions and adapter finalisation) start from a generator state already used earlier in the run -- a stream "
+               f"was replayed ({r['exception']})")
     for bg in ("SFC64", "Philox", "MT19937"):
         c3 = E.hmc_run(adapters=(), n_warm=3, n_main=3, nchain=3, n_process=1, trace_warm_up=True, explicit_mom=True, bitgen=bg)
         c2 = E.hmc_run(adapters=(), n_warm=3, n_main=3, nchain=2, n_process=1, trace_warm_up=True, explicit_mom=True, bitgen=bg)
